@@ -6,7 +6,7 @@ import random
 
 RESTRS = ["normal..tutorial1", "normal", "leaves..tutorial2", "leaves..tutorial_gui", "normal..tutorial3", "leaves..tutorial_get..explicit_noop",
           "minimal", "leaves..quicktest"]
-NETS = ["net1", "net1 net2", "net1 net2 net3", "cluster1.net6 cluster1.net7"]
+NETS = ["net1", "net1 net2", "net1 net2 net3", "cluster1.net6 cluster1.net7", "net4 net5", "net5 net1"]      # net5 restricts its vm variants
 VMR = {"vm1": "only CentOS\n", "vm2": "only Win10\n", "vm3": "only Ubuntu\n"}
 CHAIN = [("images:image1_%s", "install"), ("images:image1_%s", "customize"), ("vms:%s", "on_customize"), ("images:image1_%s", "connect")]
 
